@@ -177,9 +177,9 @@ pub fn eval(expr: Node) -> Result<i64, Box<dyn error::Error>> {
         }
         Min(args) => {
             if args.len() > 1 {
-                let mut result = i64::MIN;
+                let mut result = i64::MAX;
                 for arg in <Vec<Node> as Clone>::clone(&args).into_iter() {
-                    result = eval(arg).unwrap().min(result);
+                    result = eval(arg)?.min(result);
                 }
                 Ok(result)
             } else {
@@ -191,9 +191,9 @@ pub fn eval(expr: Node) -> Result<i64, Box<dyn error::Error>> {
         }
         Max(args) => {
             if args.len() > 1 {
-                let mut result = i64::MAX;
+                let mut result = i64::MIN;
                 for arg in <Vec<Node> as Clone>::clone(&args).into_iter() {
-                    result = eval(arg).unwrap().max(result);
+                    result = eval(arg)?.max(result);
                 }
                 Ok(result)
             } else {
@@ -204,9 +204,9 @@ pub fn eval(expr: Node) -> Result<i64, Box<dyn error::Error>> {
             }
         }
         Avg(args) => {
-            let mut result = 0;
+            let mut result: i64 = 0;
             for arg in <Vec<Node> as Clone>::clone(&args).into_iter() {
-                result += eval(arg).unwrap();
+                result = checked(result.checked_add(eval(arg)?))?;
             }
             let len = args.len() as i64;
             Ok(result / len)
@@ -214,12 +214,12 @@ pub fn eval(expr: Node) -> Result<i64, Box<dyn error::Error>> {
         Med(args) => {
             let mut results = vec![];
             for arg in <Vec<Node> as Clone>::clone(&args).into_iter() {
-                results.push(eval(arg).unwrap());
+                results.push(eval(arg)?);
             }
             results.sort_by(|a, b| a.partial_cmp(b).unwrap());
             let len = results.len();
             if len % 2 == 0 {
-                Ok((results[len >> 1] + results[(len >> 1) - 1]) / 2)
+                Ok(checked(results[len >> 1].checked_add(results[(len >> 1) - 1]))? / 2)
             } else {
                 Ok(results[len >> 1])
             }
